@@ -58,7 +58,7 @@ class C11Bounded(Bounded):
                      ({"f1": {"u": 1}, "f2": {"w": 2}}, "not 1 of *"), ({"allow_a": {"u": 1}, "al_x_ow_a": {"w": 2}, "alow_b": {"x": 3}}, "not 1 of al*ow_a"), ({"f1": {"u": 1}, "f2": {"w": 2}}, "not all of *")]
         logsources = [({"category": "c", "product": "p"}, {"category": "c"}), ({"category": "c", "product": "p"}, {"product": "p"}), ({"category": "c"}, {"category": "c", "product": "p"}),
                       ({"category": "c", "product": "p", "service": "s"}, {"category": "c", "product": "p", "service": "s"}), ({"category": "c"}, {"category": "d"})]
-        targets = ["any", "byname", "byid", "byID_upper", "other"]
+        targets = ["any", "byname", "byname_scalar", "any_scalar_upper", "byid", "byid_scalar", "byID_upper", "other"]
         ev = nontriv = 0
         seen, fails, samples = {}, [], []
 
@@ -75,9 +75,9 @@ class C11Bounded(Bounded):
             rd, rc = rule_dets[ri]
             fd, fc = filt_dets[fi]
             rls, fls = logsources[li]
-            rule = {"title": "r", "name": "rname", "id": RID, "logsource": rls, "detection": {**copy.deepcopy(rd), "condition": rc}}
+            rule = {"title": "r", "name": "Rname_DC", "id": RID, "logsource": rls, "detection": {**copy.deepcopy(rd), "condition": rc}}
             other = {"title": "o", "name": "oname", "id": "00000000-0000-4000-8000-000000000001", "logsource": {"category": "zzz"}, "detection": {"sel": {"z": 9}, "condition": "sel"}}
-            rules_ref = {"any": "any", "byname": ["rname"], "byid": [RID], "byID_upper": [RID.upper()], "other": ["oname"]}[tg]
+            rules_ref = {"any": "any", "byname": ["Rname_DC"], "byname_scalar": "Rname_DC", "any_scalar_upper": "ANY", "byid": [RID], "byid_scalar": RID, "byID_upper": [RID.upper()], "other": ["oname"]}[tg]
             filt = {"title": "f", "logsource": fls, "filter": {"rules": rules_ref, **copy.deepcopy(fd), "condition": fc}}
             applies = covers(fls, rls) and tg != "other"
             ev += 1
@@ -125,14 +125,19 @@ class C11Bounded(Bounded):
                 col = SigmaCollection([SigmaRule.from_dict(copy.deepcopy(d)) for d in rdocs])
                 col.rules.extend(SigmaFilter.from_dict(copy.deepcopy(d)) for d in fl)
                 q_append = b().convert(col)
+                parts = [SigmaCollection.from_dicts([copy.deepcopy(d)], collect_filters=True, resolve_references=False) for d in rdocs[:1] + fl[:2] + rdocs[1:] + fl[2:]]
+                q_merge_list = b().convert(SigmaCollection.merge(parts))
+                parts = [SigmaCollection.from_dicts([copy.deepcopy(d)], collect_filters=True, resolve_references=False) for d in rdocs[:1] + fl[:2] + rdocs[1:] + fl[2:]]
+                q_merge_gen = b().convert(SigmaCollection.merge(p for p in parts))
             except Exception as e:
                 fail("stacked-error", f"three filters in order {[f['title'] for f in fl]}: {type(e).__name__}: {e}", [list(fperm)])
                 continue
             want = ['a=1 and not u="adm" and not v="svc"', 'b=2 and not u="adm"', 'c=3 and not w="sys"']
             norm = lambda qs: [" and ".join(sorted(q.split(" and "))) for q in qs]
-            for route, got in (("from_dicts", q_dicts), ("constructor", q_ctor), ("filters appended to collection.rules", q_append)):
+            for route, got in (("from_dicts", q_dicts), ("constructor", q_ctor), ("filters appended to collection.rules", q_append), ("merge of a list of collections", q_merge_list),
+                               ("merge of a generator of collections", q_merge_gen)):
                 if norm(got) != norm(want):
                     fail("stacked:" + route, f"three filters in order {[f['title'] for f in fl]} via {route}: {got}, expected each rule narrowed by exactly the filters that target it: {want}", [list(fperm), route])
         return {"evaluations": ev, "distinct_nontrivial": nontriv, "failures": fails, "failure_counts": seen,
-                "bound": f"all orders of three filters through three routes; {len(rule_dets)} rule shapes x {len(filt_dets)} filter shapes x {len(logsources)} log source relations x {len(targets)} rule-list forms" + (" (every third)" if tier == "quick" else ""),
+                "bound": f"all orders of three filters through five routes; {len(rule_dets)} rule shapes x {len(filt_dets)} filter shapes x {len(logsources)} log source relations x {len(targets)} rule-list forms" + (" (every third)" if tier == "quick" else ""),
                 "rule": "distinct (rule, filter, log sources, target); non-trivial = the filter applies", "samples": samples, "exhaustive": tier != "quick"}
